@@ -128,6 +128,21 @@ def check_case(case, acc):
             if got.shape != want.shape or not np.allclose(got, want, rtol=1e-12, atol=0):
                 problems.append((what, "values", f"{what}: on the new frame of rows {idx} got {got.reshape(-1)[:6].tolist()}, expected {want.reshape(-1)[:6].tolist()}"))
                 return
+        # one work frame updated in place between evaluations (same object, other contents)
+        work = df.iloc[[0, 1]].reset_index(drop=True)
+        for idx in ([0, 1], [5, 2], [7, 7], [3, 4], [5, 2]):
+            for c_ in work.columns:
+                work[c_] = df[c_].iloc[idx].values
+            acc.calls += 1
+            try:
+                got = np.asarray(dm.common.evaluate_new_data(work)[name], dtype=float).reshape(len(work), -1)
+            except Exception as e:
+                problems.append((what, "refilled-" + exc_sig(e), f"{what}: work frame refilled in place with rows {idx} raised {type(e).__name__}: {e}"))
+                return
+            want = np.asarray(want_fn(work), dtype=float).reshape(len(work), -1)
+            if got.shape != want.shape or not np.allclose(got, want, rtol=1e-12, atol=0):
+                problems.append((what, "refilled", f"{what}: work frame refilled in place with rows {idx} got {got.reshape(-1)[:6].tolist()}, expected {want.reshape(-1)[:6].tolist()}"))
+                return
 
     if k == "binary":
         col, s = case["col"], case["s"]
